@@ -87,6 +87,29 @@ def in_loop(cond):
     return any(t[0] == "inloop" for t, _ in cond)
 
 
+def epoch_types_where(repo, pred, etype_t):
+    """Names of the EpochType members for which the predicate term holds (the epoch type
+    being the term `etype_t`); raises concrete.Unmodelled if it cannot be evaluated."""
+    members = enum_members(repo)
+    globs = {f"{ETYPE}.{k}": v for k, v in members.items()}
+    helper = None
+    if pred[0] == "call" and pred[2] == (etype_t,):
+        nm = fn_name(pred[1]) or ""
+        if nm.startswith(ETYPE + "."):
+            helper = nm
+        elif pred[1][0] == "a" and f"{ETYPE}.{pred[1][2]}" in repo.functions:
+            # a static helper called through an instance: epoch.type.is_warmup(epoch.type)
+            helper = f"{ETYPE}.{pred[1][2]}"
+    if helper is not None:
+        pfi = repo.functions.get(helper)
+        if pfi is None:
+            raise concrete.Unmodelled(pred)
+        prt = evaluate(repo, pfi).ret()
+        return {k for k, v in members.items()
+                if concrete.evaluate(prt, {n(pfi.params()[0]): v}, globs)}
+    return {k for k, v in members.items() if concrete.evaluate(pred, {etype_t: v}, globs)}
+
+
 def dispatch_obligations(ctx, r6, r7):
     """The adaptive transition runs exactly in the adaptation epochs; tune dispatches on
     SLOW_ADAPTATION; the enum predicates hold for the documented members (shared with
